@@ -48,7 +48,13 @@ impl Re {
     pub uninterp spec fn cls(&self) -> int;
     pub uninterp spec fn run_of_cls(&self) -> bool;        // ^[C]* : the maximal leading run of C characters
     pub uninterp spec fn one_of_cls(&self) -> bool;        // [C]   : the first C character
+    // ^(?:(".+?")|('.+?')|(ident)) : a quoted string (both quotes one byte long, something in between) or an identifier
+    pub uninterp spec fn quoted_or_ident(&self) -> bool;
 }
+// char::len_utf8
+pub open spec fn spec_len_utf8(c: char) -> int { if (c as u32) < 0x80 { 1 } else if (c as u32) < 0x800 { 2 } else if (c as u32) < 0x10000 { 3 } else { 4 } }
+#[verifier::external_body]
+pub fn len_utf8(c: char) -> (r: usize) ensures r == spec_len_utf8(c) { unimplemented!() }
 
 impl Src {
     pub uninterp spec fn slen(&self) -> nat;
@@ -56,6 +62,7 @@ impl Src {
     pub uninterp spec fn spec_find(&self, re: Re, i: int) -> Option<Match>;
     pub uninterp spec fn spec_starts_with(&self, i: int, s: Lit) -> bool;
     pub uninterp spec fn in_cls(&self, c: int, i: int) -> bool;   // the character starting at boundary i belongs to class c
+    pub uninterp spec fn ch(&self, i: int) -> char;               // the character starting at boundary i
     pub open spec fn ok(&self, i: int) -> bool { 0 <= i <= self.slen() && self.is_boundary(i) && self.slen() <= isize::MAX }
 
     #[verifier::external_body]
@@ -89,9 +96,28 @@ impl Src {
                 &&& (re.ascii_delims() ==> self.is_boundary(i + m.st + 1) && self.is_boundary(i + m.en - 1))
                 &&& (re.run_of_cls() ==> m.st == 0 && (i + m.en < self.slen() ==> !self.in_cls(re.cls(), i + m.en)) && (m.en > 0 ==> self.in_cls(re.cls(), i as int)))
                 &&& (re.one_of_cls() ==> m.st < m.en && self.in_cls(re.cls(), i + m.st))
+                &&& (re.quoted_or_ident() ==> m.st == 0 && m.en >= 1 && ((self.ch(i as int) == '"' || self.ch(i as int) == '\'') ==> m.en >= 3 && self.is_boundary(i + m.en - 1)))
             }),
             re.run_of_cls() ==> r is Some,
             re.one_of_cls() && i < self.slen() && self.in_cls(re.cls(), i as int) ==> (r matches Some(m) && m.st == 0),
+    { unimplemented!() }
+
+    // `self.src[i..].chars().next()`: the character at the cursor (None at the end of the text); the next
+    // boundary is len_utf8 bytes further on
+    #[verifier::external_body]
+    pub fn first_char_from(&self, i: usize) -> (r: Option<char>)
+        requires i <= self.slen(), // OBLG: C12.slice_start_in_range
+                 self.is_boundary(i as int), // OBLG: C12.slice_start_on_char_boundary
+        ensures (r is None) == (i == self.slen()),
+            r matches Some(c) ==> c == self.ch(i as int) && i + spec_len_utf8(c) <= self.slen() && self.is_boundary(i + spec_len_utf8(c)),
+    { unimplemented!() }
+
+    // `self.src[i..].starts_with('c')`
+    #[verifier::external_body]
+    pub fn starts_with_char(&self, i: usize, c: char) -> (r: bool)
+        requires i <= self.slen(), // OBLG: C12.slice_start_in_range
+                 self.is_boundary(i as int), // OBLG: C12.slice_start_on_char_boundary
+        ensures r == (i < self.slen() && self.ch(i as int) == c), r ==> i + spec_len_utf8(c) <= self.slen() && self.is_boundary(i + spec_len_utf8(c)),
     { unimplemented!() }
 
     // `self.src[i..].starts_with(lit)`
@@ -107,8 +133,14 @@ impl Src {
 impl Str {
     #[verifier::external_body]
     pub fn to_string(&self) -> (r: StrBuf) { unimplemented!() }
+    #[verifier::external_body]
+    pub fn trim(&self) -> (r: Str) { unimplemented!() }
 }
 impl StrBuf {
+    #[verifier::external_body]
+    pub fn new() -> (r: StrBuf) { unimplemented!() }
+    #[verifier::external_body]
+    pub fn push_str(&mut self, s: Str) { unimplemented!() }
     #[verifier::external_body]
     pub fn to_lowercase(&self) -> (r: StrBuf) { unimplemented!() }
 }
